@@ -8,6 +8,7 @@
   K5: `unpack` never uses `datalen`, so the decoded payload is the payload FOLLOWED BY the filler.
 -/
 import Acra.Lemmas.Ch11
+import Acra.Lemmas.ReviewC03
 namespace Acra.Props.C03
 open Acra.Py Acra.Model.Ch11 Acra.Gen.Ch11 Acra.Lemmas.Ch11 Acra.Lemmas.Ch10 Acra
 
@@ -39,6 +40,13 @@ theorem ch11_setter_legal (s : State) (v : Nat) (h : v < 128 ∨ (v < 256 ∧ v 
     have c : 128 ≤ v := by omega
     simp [a, h2, h3, c]
 
+/-- both disjuncts of the hypothesis are inhabited by non-trivial flags: 0x35 (no secondary header, RTC,
+    checksum/overflow bits set) and 0xF7 (secondary header, time format 01 = IEEE-1588) -/
+example : (0x35 < 128 ∨ (0x35 < 256 ∧ 0x35 / 128 = 1 ∧ 0x35 / 4 % 4 = 1)) ∧
+    (0xF7 < 128 ∨ (0xF7 < 256 ∧ 0xF7 / 128 = 1 ∧ 0xF7 / 4 % 4 = 1)) ∧
+    (setPacketflag fresh 0xF7).1.has_secondary_header = true ∧ (setPacketflag fresh 0xF7).1.ts_source = TS_IEEE1558 := by
+  decide
+
 /-- the error branches: a flag that does not fit a byte, or bit 7 with time-format bits 10 / 11, is rejected
     by the setter (bare Exception) -/
 theorem ch11_setter_illegal (s : State) (v : Nat) (h : 255 < v ∨ (v / 128 = 1 ∧ 2 ≤ v / 4 % 4)) :
@@ -53,10 +61,22 @@ theorem ch11_setter_illegal (s : State) (v : Nat) (h : 255 < v ∨ (v / 128 = 1 
       have c : ¬ v / 4 % 4 = 1 := by omega
       simp [a, h2, b, c]
 
+/-- inhabited: 0x1F7 does not fit a byte; 0x88 and 0x8C have bit 7 with time-format bits 10 and 11 -/
+example : (255 < 0x1F7 ∨ (0x1F7 / 128 = 1 ∧ 2 ≤ 0x1F7 / 4 % 4)) ∧ (255 < 0x88 ∨ (0x88 / 128 = 1 ∧ 2 ≤ 0x88 / 4 % 4)) ∧
+    (255 < 0x8C ∨ (0x8C / 128 = 1 ∧ 2 ≤ 0x8C / 4 % 4)) ∧ (setPacketflag fresh 0x88).2 = .error .generic := by
+  decide
+
 /-- … and a secondary header with the Chapter 4 time format (what flag 0x80 selects) is rejected by `pack` -/
 theorem ch11_pack_ch4_rejected (s : State) (h : s.has_secondary_header = true) (ht : s.ts_source = TS_CH4) :
     (pack s).2 = .error .generic := by
   simp [pack, secHdr, h, ht]
+
+/-- inhabited (an object with a payload, the secondary-header switch on and the time source left at Chapter 4 /
+    RTC — the two constants are both 0 in the library): `pack` raises -/
+example : ({ fresh with has_secondary_header := true, payload := [1, 2, 3] } : State).has_secondary_header = true ∧
+    ({ fresh with has_secondary_header := true, payload := [1, 2, 3] } : State).ts_source = TS_CH4 ∧
+    (pack { fresh with has_secondary_header := true, payload := [1, 2, 3] }).2 = .error .generic := by
+  decide
 
 /-- layout, no secondary header: `pack` emits `Spec.Ch11.encode … none payload` and leaves the computed
     lengths and the filler in the object -/
@@ -104,6 +124,24 @@ theorem ch11_pack_shape (s : State) (h : WFn s ∨ WFs s) :
     · simp [Spec.Ch11.encode, hl]
     · simp [Spec.Ch11.header, Spec.Ch11.header22]
 
+/-- the two computed length fields AS THEY STAND IN THE EMITTED BYTES (little-endian 32-bit words at offsets 4
+    and 8): the packet-length field equals the real length of the packet, the data-length field the length of
+    the payload without filler -/
+theorem ch11_length_fields_on_wire (s : State) (h : WFn s ∨ WFs s) :
+    ∃ b, (pack s).2 = .ok b ∧ leNat (slice b 4 8) = b.length ∧ leNat (slice b 8 12) = s.payload.length := by
+  rcases h with h | h
+  · refine ⟨_, by rw [pack_nosec s h], ?_⟩
+    exact Lemmas.ReviewC03.encode_length_fields _ _ _ _ _ _ _ none s.payload (by have := h.2.2.2.2.2.2.2.2.2.2; simp; omega)
+  · refine ⟨_, by rw [pack_sec s h], ?_⟩
+    exact Lemmas.ReviewC03.encode_length_fields _ _ _ _ _ _ _ (some _) s.payload (by have := h.2.2.2.2.2.2.2.2.2.2.2.2; simp; omega)
+
+/-- `data_checksum_size = 0` is a hypothesis of both WF predicates.  What the code does otherwise (outside the
+    property's quantifier: the library has no data-checksum support): it adds the size to `packetlen` but emits
+    no checksum bytes, so the packet-length law is false — here 2 is added to the field and nothing to the bytes -/
+example : (pack { fresh with data_checksum_size := 2, payload := [1, 2] }).1.packetlen = 28 ∧
+    (match (pack { fresh with data_checksum_size := 2, payload := [1, 2] }).2 with
+     | .ok b => b.length | .error _ => 0) = 26 := by decide
+
 /-- round trip without secondary header, into an object in ANY prior state `t`: every header field comes
     back, `packetlen` / `datalen` are the computed ones, and the decoded payload is the original payload
     followed only by the `k < 4` filler bytes 0xFF (K5: `payload q = payload p ++ filler`) -/
@@ -145,5 +183,12 @@ theorem ch11_roundtrip_aligned (s t : State) (h : WFn s) (ha : s.payload.length 
   rw [hu]
   have : Spec.Ch11.fillLen (24 + 0 + s.payload.length) = 0 := by unfold Spec.Ch11.fillLen; omega
   simp [decoded, this]
+
+/-- joint witness for `ch11_roundtrip_aligned`: well-formed, non-empty payload of a whole number of words -/
+example : WFn { fresh with channelID := 0x1234, sequence := 3, packetflag := 0x35, datatype := 0x50,
+                           relativetimecounter := 0xFFFFFFFFFFFF, payload := [1, 2, 3, 4, 5, 6, 7, 8] } ∧
+    ({ fresh with channelID := 0x1234, sequence := 3, packetflag := 0x35, datatype := 0x50,
+                  relativetimecounter := 0xFFFFFFFFFFFF, payload := [1, 2, 3, 4, 5, 6, 7, 8] } : State).payload.length % 4 = 0 := by
+  simp [WFn, fresh, DEFAULT_SYNCPATTERN, DEFAULT_DATATYPEVERSION, TS_RTC]
 
 end Acra.Props.C03
